@@ -475,9 +475,14 @@ func c16nsCheck(c c16nsCase) *kit.Verdict {
 func TestC16NetnsLate(t *testing.T) {
 	kit.Run(t, kit.Spec[c16nsCase]{
 		Prop: "C16",
-		Rule: "the REAL sx binary in a network namespace (real AF_PACKET socket and ring): arp / icmp / udp / tcp syn / tcp fin over a /30 on a veth or tun device with --exit-delay 150 / 300 / 600 ms, a third of the scans stretched to about a second by --rate 3/s (the receiver has seen nothing for a while); the reply to the last probe is put on the wire t ms after that probe was seen, t = 0, half the delay, or 50 ms before its end. Oracle: the reply is reported and the process does not end before the delay; a miss is re-run five times and counts as a violation when the reply is lost in >= 3 runs during which a scheduler-lateness monitor saw < 15 ms (otherwise the case is discarded). non-trivial: t > 0; distinct by case",
+		Rule: "the REAL sx binary in a network namespace (real AF_PACKET socket and ring): arp / icmp / udp / tcp syn / tcp fin over a /30 on a veth or tun device with --exit-delay 150 / 300 / 600 ms (one case in five 3 s), a third of the scans stretched to about a second by --rate 3/s (the receiver has seen nothing for a while); the reply to the last probe is put on the wire t ms after that probe was seen, t = 0, half the delay, or 50 ms before its end. Oracle: the reply is reported and the process does not end before the delay; a miss is re-run five times and counts as a violation when the reply is lost in >= 3 runs during which a scheduler-lateness monitor saw < 15 ms (otherwise the case is discarded). non-trivial: t > 0; distinct by case",
 		Gen: func(t *rapid.T) c16nsCase {
 			c := c16nsCase{Cmd: rapid.SampledFrom([]string{"arp", "icmp", "udp", "tcp syn", "tcp fin"}).Draw(t, "cmd"), ExitMs: rapid.SampledFrom([]int{150, 300, 600}).Draw(t, "exit")}
+			if kit.Uniform(t, "long-delay", 5) == 3 {
+				// a delay of seconds on a silent link: the receiver has seen nothing but poll timeouts for a long time when
+				// the reply finally comes
+				c.ExitMs = 3000
+			}
 			c.Tun = c.Cmd != "arp" && rapid.Bool().Draw(t, "tun")
 			before := kit.EnvInt("C16_BEFORE_END_MS", 50)
 			c.ReplyMs = rapid.SampledFrom([]int{0, c.ExitMs / 2, c.ExitMs - before, c.ExitMs - before}).Draw(t, "reply-at")
